@@ -82,9 +82,23 @@ def r1(ctx):
     ctx.floor("C05.R1", 9)
 
 
+def _index_dispatch_body(f):
+    """the body that matches on the chosen IndexKind to open the ranges (QueryIterator::new or a
+    helper it calls)"""
+    from .common import variant_edges
+    cands = []
+    for b in f.local_callees(QN, depth=2, prefix="store::fs::query"):
+        if variant_edges(b, lambda ty: ty.endswith("store::util::IndexKind"), 0):
+            cands.append(b)
+    if len(cands) != 1:
+        raise mir.AnchorMissing("expected one body dispatching on IndexKind under QueryIterator::new, found %d" % len(cands))
+    return cands[0]
+
+
 def r2(ctx):
     f = ctx.facts
-    b = f.body(QN)
+    ctx.touch(f.body(QN))
+    b = _index_dispatch_body(f)
     ctx.touch(b)
     IKn = _names(f, "store::util::IndexKind")
     AF = _names(f, "store::AuthorFilter")
@@ -99,7 +113,7 @@ def r2(ctx):
         seen.add((ik, af))
         if ik == "AuthorKey" and af == "Exact":
             t = calls.get("author_key")
-            ok = t is not None and "key_filter:Any" in r
+            ok = t is not None and re.search(r"key_filter:Any\b", r) is not None
             if ok:
                 a = [sorted({origin_summary(o) + "." + ".".join(mir.field_path(o)) for o in trace(b, x)}) for x in t["a"]]
                 ok = a[0] == ["arg:namespace."] and any("key_filter" in x for x in a[2]) and any(x.endswith(".0") or "as Exact" in x or x.endswith("range.0") or "range" in x for x in a[1])
@@ -107,12 +121,12 @@ def r2(ctx):
                       "result %s" % r[:200], b.sp)
         elif ik == "AuthorKey" and af == "Any":
             t = calls.get("namespace")
-            ok = t is not None and "key_filter:place:from.as AuthorKey.key_filter" in r and "author_key" not in calls
+            ok = t is not None and re.search(r"key_filter:(place|value):[^,}]*AuthorKey\.key_filter", r) is not None and "author_key" not in calls
             ctx.check(ok, "C05.R2", QN, "any-author: namespace bounds and the key filter is retained",
                       "result %s" % r[:200], b.sp)
         elif ik == "KeyAuthor":
             t = calls.get("new")
-            ok = t is not None and "author_filter:place:from.as KeyAuthor.author_filter" in r and "selector:call:then" in r
+            ok = t is not None and re.search(r"author_filter:(place|value):[^,}]*KeyAuthor\.author_filter", r) is not None and "selector:call:then" in r
             if ok:
                 a1 = {origin_summary(o) + "." + ".".join(mir.field_path(o)) for o in trace(b, t["a"][1])}
                 a0 = {origin_summary(o) for o in trace(b, t["a"][0])}
@@ -142,51 +156,54 @@ def r3(ctx):
 
 def r4(ctx):
     f = ctx.facts
+    from . import feval as E
     b = f.body("store::util::LatestPerKeySelector::push")
     ctx.touch(b)
-    rows = []
-    ts_tbl = {}
-    for p in P.explore(b):
-        entry = kept = samekey = newer = None
-        for k, v in p.decisions:
-            if k[0] == "discr" and "arg:entry" in k[1]:
-                entry = "Some" if v == 1 else "None"
-            elif k[0] == "discr" and "take" in k[1]:
-                kept = "Some" if v == 1 else "None"
-            elif k[0] == "cmp" and "key(" in k[2] and "key(" in k[3]:
-                samekey = bool(v) if k[1] == "==" else (not bool(v))
-            elif k[0] == "cmp" and "timestamp(" in k[2] and "timestamp(" in k[3]:
-                t = TRUTH[k[1]]
-                if "take" in k[2] and "arg:entry" in k[3]:
-                    t = flip(t)
-                newer = [o for o in ("Less", "Equal", "Greater") if t[o] == bool(v)]
-        w = P.writes(p)
-        stored = None
-        for fld, val in w:
-            if "arg:entry" in val:
-                stored = "new"
-            elif "take" in val:
-                stored = "kept"
-        ret = P.short(p.ret)
-        emitted = "kept" if ret.startswith("Some(") and "take" in ret else ("new" if ret.startswith("Some(") else ret)
-        rows.append((entry, kept, samekey, tuple(newer) if newer else None, stored, emitted))
-        if newer:
-            for o in newer:
-                ts_tbl[o] = stored
+    SEL = "store::util::LatestPerKeySelector"
+    rows = {}
+
+    def run(entry_some, kept_some, same_key, ts_order):
+        def oracle(kind, a, b2, site):
+            sa, sb = str(a), str(b2)
+            if kind in ("eq", "cmp"):
+                if "key" in sa and "key" in sb:
+                    return same_key if kind == "eq" else (0 if same_key else 1)
+                if "timestamp" in sa and "timestamp" in sb:
+                    o = {"Less": -1, "Equal": 0, "Greater": 1}[ts_order]
+                    if "new" in sa and "kept" in sb:
+                        return (o == 0) if kind == "eq" else o
+                    if "kept" in sa and "new" in sb:
+                        return (o == 0) if kind == "eq" else -o
+            return None
+        heap = {"self": E.Adt(SEL, 0, {0: E.Some(E.Tok("kept")) if kept_some else E.NONE})}
+        arg = E.Some(E.Tok("new")) if entry_some else E.NONE
+        ret, h, ev = E.run(f, b.path, [E.href("self"), arg], heap, oracle)
+        return E.describe(ret, f), E.describe(h["self"][3].get(0), f)
+    try:
+        rows[("None", "Some")] = run(False, True, None, None)
+        rows[("None", "None")] = run(False, False, None, None)
+        rows[("Some", "None")] = run(True, False, None, None)
+        rows[("Some", "Some", "other key")] = run(True, True, False, "Less")
+        for o in ("Less", "Equal", "Greater"):
+            rows[("Some", "Some", "same key", o)] = run(True, True, True, o)
+    except E.Unsupported as e:
+        ctx.bad("C05.R4", b.path, "selector-table", "UNSUPPORTED-FORM: %s" % e, b.sp)
+        ctx.floor("C05.R4", 1)
+        return
     want = {
-        ("None", "Some", None, None, None, "kept"),
-        ("None", "None", None, None, None, "Finished"),
-        ("Some", "None", None, None, "new", "Continue"),
-        ("Some", "Some", False, None, "new", "kept"),
+        ("None", "Some"): ("Some(kept)", "None"),
+        ("None", "None"): ("Finished", "None"),
+        ("Some", "None"): ("Continue", "Some(new)"),
+        ("Some", "Some", "other key"): ("Some(kept)", "Some(new)"),
+        ("Some", "Some", "same key", "Less"): ("Continue", "Some(kept)"),
+        ("Some", "Some", "same key", "Greater"): ("Continue", "Some(new)"),
     }
-    got_fixed = {r for r in rows if r[3] is None}
-    ctx.check(got_fixed == want, "C05.R4", b.path, "selector-table",
-              "(entry, kept, same key, ts order, stored, emitted): %s" % sorted(rows, key=str), b.sp)
-    ctx.check(ts_tbl == {"Less": "kept", "Equal": "kept", "Greater": "new"} or ts_tbl == {"Less": "kept", "Equal": "new", "Greater": "new"}, "C05.R4", b.path, "keeps-greater-timestamp",
-              "within a key, stored(cmp(new.ts, kept.ts)) = %s; spec: new iff Greater (Equal may keep either)" % ts_tbl, b.sp)
-    same = [r for r in rows if r[2] is True]
-    ctx.check(bool(same) and all(r[5] == "Continue" for r in same), "C05.R4", b.path, "same-key-emits-nothing", "%s" % same, b.sp)
-    ctx.floor("C05.R4", 3)
+    got = {k: v for k, v in rows.items() if k in want}
+    ctx.check(got == want, "C05.R4", b.path, "selector-table",
+              "(pushed, kept[, key, cmp(new.ts,kept.ts)]) -> (emitted, kept afterwards): %s" % sorted(rows.items(), key=str), b.sp)
+    eq = rows[("Some", "Some", "same key", "Equal")]
+    ctx.check(eq in (("Continue", "Some(kept)"), ("Continue", "Some(new)")), "C05.R4", b.path, "equal-timestamps-keep-one", "%s" % (eq,), b.sp)
+    ctx.floor("C05.R4", 2)
 
 
 def r5(ctx):
@@ -207,10 +224,11 @@ def r5(ctx):
     if lim is None or len(fetches) != 2:
         ctx.bad("C05.R5", QNEXT, "limit-test.form", "limit comparison or the two fetch sites not found (%s, %d) (UNSUPPORTED-FORM)" % (lim is not None, len(fetches)), b.sp)
     else:
-        e = follow_value(b, lim["dest"]["l"]).get("true")
-        ok = bool(e)
+        from .common import truth_edges_final
+        es = truth_edges_final(b, lim["dest"]["l"], True)
+        ok = bool(es)
         if ok:
-            region = b.reach_from_edges([e[1]])
+            region = b.reach_from_edges([e[1] for e in es])
             ok = not any(x in region for x in fetches) and lim["op"] == ">="
         ctx.check(ok, "C05.R5", QNEXT, "nothing-fetched-once-limit-reached", "on count >= limit the iterator returns None without touching the ranges", lim["loc"])
     # (b) offset skipping only for Some(Ok(_))
@@ -279,16 +297,22 @@ def r5(ctx):
     # on the key-ordered path the emptiness test is applied to the selector's OUTPUT: the value tested
     # must have the selector's result among its origins (filtering before the selection would let an
     # older non-empty entry of another author resurface behind a newer deletion marker)
-    ie = [(bi, t) for bi, t in b.calls() if t["f"].get("name") == "is_empty" and callee_matches(t, r"sync::Record::is_empty$")]
+    from .common import lift_origins
+    ie = []
+    for body in fam:
+        for bi, t in body.calls():
+            if t["f"].get("name") == "is_empty" and callee_matches(t, r"sync::Record::is_empty$"):
+                ie.append((body, bi, t))
     pu = [(bi, t) for bi, t in b.calls() if callee_matches(t, r"LatestPerKeySelector::push$")]
     if len(ie) == 1 and len(pu) == 1:
-        srcs = trace(b, ie[0][1]["a"][0])
+        body, bi, t = ie[0]
+        srcs = lift_origins(f, body, trace(body, t["a"][0]), b)
         from_sel = any(o.kind == "call" and o.data is pu[0][1] for o in srcs)
         ctx.check(from_sel, "C05.R5", QNEXT, "empty-filter-after-latest-per-key-selection",
                   "the entry tested for emptiness derives from the selector's result" if from_sel else
-                  "the emptiness filter is applied before the latest-per-key selection: a newer deletion marker no longer hides older entries of other authors for that key", ie[0][1]["sp"])
+                  "the emptiness filter is applied before the latest-per-key selection: a newer deletion marker no longer hides older entries of other authors for that key", t["sp"])
     else:
-        ctx.bad("C05.R5", QNEXT, "empty-filter-after-latest-per-key-selection", "expected one Record::is_empty test and one selector push in next() (found %d/%d) (UNSUPPORTED-FORM)" % (len(ie), len(pu)), b.sp)
+        ctx.bad("C05.R5", QNEXT, "empty-filter-after-latest-per-key-selection", "expected one Record::is_empty test (in next() or a closure of it) and one selector push (found %d/%d) (UNSUPPORTED-FORM)" % (len(ie), len(pu)), b.sp)
     ve = f.body("store::fs::query::value_is_empty")
     ri = f.body("sync::Record::is_empty")
     ctx.touch(ve, ri)
@@ -339,23 +363,31 @@ def r6(ctx):
     f = ctx.facts
     cl = f.body("store::fs::ranges::RecordsByKeyRange::next_filtered::{closure#0}")
     ctx.touch(cl)
-    tr = [(bi, t) for bi, t in cl.calls() if t["f"].get("name") == "transpose"]
-    ok = False
-    if len(tr) == 1:
-        # its result goes through `?` on an Option: Break edge returns None
-        for bi, t in cl.calls():
-            if t["f"].get("name") == "branch" and "Option<" in t["f"].get("full", "") and any(o.kind == "call" and o.data is tr[0][1] for o in trace(cl, t["a"][0], through_calls=False)):
-                oc = follow_value(cl, t["d"]["l"])
-                brk = oc.get("Break")
-                if brk:
-                    region = cl.reach_from_edges([brk[1]])
-                    errs = [x for x, si, s in cl.statements() if x in region and s["k"] == "assign" and s["r"][0] == "agg" and s["r"][1][0] == "adt" and s["r"][1][2] in ("Err", "Some")]
-                    fr = [x for x, tt in cl.calls() if x in region and tt["f"].get("name") == "from_residual" and cl.edge_dominates(brk[0], brk[1], x)]
-                    ok = bool(fr) and not [x for x in errs if cl.edge_dominates(brk[0], brk[1], x)]
-    ctx.check(ok, "C05.R6", cl.path, "stale-index-id-skipped", "a by-key id whose record is gone makes the filter-map callback return None (skip), not Some(Err)", cl.sp)
-    # the filter is consulted before the lookup
+    gets = [(bi, t) for bi, t in cl.calls() if t["f"].get("name") == "get" and "ReadOnlyTable" in t["f"].get("full", "")]
+    if len(gets) != 1:
+        raise mir.AnchorMissing("next_filtered: expected one records lookup, found %d" % len(gets))
+    from . import feval as E
+    rows = {}
+    for label, val in (("missing", E.Ok(E.NONE)), ("found", E.Ok(E.Some(E.Tok("row")))), ("error", E.Err(E.Tok("storage-error")))):
+        def oracle(kind, a, b2, site, val=val):
+            if kind == "call" and a in ("call", "call_mut", "call_once"):
+                return E.Int(1)          # the author filter accepts the id
+            if kind == "call" and a == "get":
+                return val
+            return None
+        ncap = len(cl.upvars) or 2
+        env = ("closure", cl.path, [E.Tok("cap%d" % i) for i in range(max(ncap, 4))])
+        heap = {"env": env}
+        try:
+            ret, h, ev = E.run(f, cl.path, [E.href("env"), ("tuple", [E.Tok("ns"), E.Tok("key"), E.Tok("author")]), E.UNIT], heap, oracle)
+            rows[label] = E.describe(ret, f).split("(")[0] + ("(Err" if E.describe(ret, f).startswith("Some(Err") else "")
+        except E.Unsupported as e:
+            rows[label] = "UNSUPPORTED-FORM: %s" % e
+    ok = rows.get("missing") == "None" and rows.get("found") == "Some" and rows.get("error") == "Some(Err"
+    ctx.check(ok, "C05.R6", cl.path, "stale-index-id-skipped",
+              "lookup outcome -> callback result: %s; spec: a by-key id whose record is gone yields None (skip), a found record Some(Ok), a storage error Some(Err)" % rows, cl.sp)
     fl = [(bi, t) for bi, t in cl.calls() if t["f"].get("name") in ("call", "call_mut")]
-    ctx.check(len(fl) == 1 and len(tr) == 1 and cl.dominates(fl[0][0], tr[0][0]), "C05.R6", cl.path, "filter-before-lookup", "the author filter is evaluated on the index id before the record is fetched", cl.sp)
+    ctx.check(len(fl) == 1 and cl.dominates(fl[0][0], gets[0][0]), "C05.R6", cl.path, "filter-before-lookup", "the author filter is evaluated on the index id before the record is fetched", cl.sp)
     ctx.floor("C05.R6", 2)
 
 
